@@ -89,6 +89,9 @@ def node_failures(sp, ctx):
     else:
         scale = max(np.linalg.norm(ref), np.linalg.norm(M), 1e-30)
         if not np.linalg.norm(M - ref) <= tol(dt) * scale:
+            # relative to the operands, not to a possibly cancelling result (e.g. Identity - NUFFT in single precision)
+            scale = max(scale, LO.opscale(sp, lambda leaf: np.linalg.norm(ctx.leaf_mat(leaf))))
+        if not np.linalg.norm(M - ref) <= tol(dt) * scale:
             out.append("matrix")
     return out
 
@@ -304,6 +307,8 @@ def check_reject(case):
 
 PARTS = [
     Part("algebra", check_algebra, {"quick": 2400, "thorough": 60000}, strategy=st_algebra),
+    Part("deep", check_algebra, {"quick": 300, "thorough": 12000},
+         strategy=lambda: LO.st_tree(max_depth=3, max_in=24, first_round_robin=False)),
     Part("reject", check_reject, {"quick": 1600, "thorough": 30000}, strategy=st_reject),
 ]
 
